@@ -3,7 +3,7 @@
 # again by the check of its property ("a fixed entry suppresses nothing").
 # usage: tools/revert_regression.sh            (prints one line per fix commit)
 set -u
-map="d235a15:C10 f5d5575:C10 4400df5:C04 1044a2a:C09 4f0ea04:C11 c317bef:C01 2ddc853:C12 0fcac4e:C08 18f4598:C07 2ae37d6:C14 af2a088:C03 86790bf:C15 ed11a0a:C03 4aafd4a:C07"
+map="d235a15:C10 f5d5575:C10 4400df5:C04 1044a2a:C09 4f0ea04:C11 c317bef:C01 2ddc853:C12 0fcac4e:C08 18f4598:C07 2ae37d6:C14 af2a088:C03 86790bf:C15 ed11a0a:C03 4aafd4a:C07 6750221:C07"
 for pair in $map; do
   c=${pair%%:*}; id=${pair##*:}
   wt=/tmp/wt/revert-$c
